@@ -1,11 +1,16 @@
 package c06
 
 import (
+	"reflect"
+	"time"
+
 	"fmt"
+	"github.com/google/uuid"
 	"math"
 	"math/big"
 	"strconv"
 	"strings"
+	"verif/hp/uni"
 
 	"verif/hp/ref"
 )
@@ -192,4 +197,21 @@ func AllScalarTokens() []Token {
 	out = append(out, TimeTokens()...)
 	out = append(out, ContainerTokens()...)
 	return out
+}
+
+// Dests are the destination types of the token matrix (also used by the streaming comparison of C05).
+var Dests = []reflect.Type{
+	reflect.TypeOf(false), reflect.TypeOf(int(0)), reflect.TypeOf(int8(0)), reflect.TypeOf(int16(0)), reflect.TypeOf(int32(0)), reflect.TypeOf(int64(0)),
+	reflect.TypeOf(uint(0)), reflect.TypeOf(uint8(0)), reflect.TypeOf(uint16(0)), reflect.TypeOf(uint32(0)), reflect.TypeOf(uint64(0)), reflect.TypeOf(uintptr(0)),
+	reflect.TypeOf(float32(0)), reflect.TypeOf(float64(0)), reflect.TypeOf(""),
+	reflect.TypeOf(uni.MyInt8(0)), reflect.TypeOf(uni.MyUint16(0)), reflect.TypeOf(uni.MyInt64(0)), reflect.TypeOf(uni.MyFloat32(0)), reflect.TypeOf(uni.MyString("")), reflect.TypeOf(uni.MyBool(false)),
+	reflect.TypeOf((*int8)(nil)), reflect.TypeOf((*uint32)(nil)), reflect.TypeOf((*int64)(nil)), reflect.TypeOf((*float64)(nil)), reflect.TypeOf((*string)(nil)), reflect.TypeOf((*bool)(nil)),
+	uni.TBigIntP, uni.TBigFloatP, uni.TBigRatP,
+	reflect.TypeOf([]byte(nil)), uni.TTime, reflect.TypeOf((*time.Time)(nil)), uni.TUUID, uni.TIface,
+	reflect.TypeOf([]int(nil)), reflect.TypeOf([]int8(nil)), reflect.TypeOf([]string(nil)), reflect.TypeOf([]interface{}(nil)), reflect.TypeOf([]float64(nil)),
+	reflect.TypeOf([3]int{}), reflect.TypeOf(map[string]int(nil)), reflect.TypeOf(map[string]interface{}(nil)), reflect.TypeOf(map[int]string(nil)),
+	reflect.TypeOf(map[interface{}]interface{}(nil)), reflect.TypeOf(uni.Plain{}), reflect.TypeOf((*uni.Plain)(nil)), uni.TListPtr,
+	// byte arrays and UUID slices: no value oracle (padding / truncation is not settled), but position independence,
+	// reference accounting and (below) streaming independence apply
+	reflect.TypeOf([4]byte{}), reflect.TypeOf([16]byte{}), reflect.TypeOf([]uuid.UUID(nil)), reflect.TypeOf(uni.MyBytes(nil)),
 }
